@@ -3,7 +3,8 @@ import GV.Lib.VersionTable
 import GV.Model.ConnSetup
 import GV.Gen.ConnProtocols
 /-
-  op:  conn <server> <mode ntn|ntc|dmq> <fullDuplex> <sendKeepAlives> <peerSharing> <version> <peerDM> <probeId> <probeResp>
+  op:  conn <server> <mode ntn|ntc|dmq> <fullDuplex> <sendKeepAlives> <peerSharing> <version> <peerDM> <probeId> <probeResp> [<delayStart>]
+       with delayStart=1 the probe arrives before the application has started anything
   out: muxer:not-responder | muxer:not-initiator | muxer:unknown-protocol(<id>) | proto:<name>
 -/
 namespace GV.Drv.C17
@@ -26,7 +27,10 @@ def render : Routed → String
     negotiated connection is duplex (both ends asked for initiator-and-responder on NtN). -/
 def spec (c : Cfg) (id : Nat) (resp : Bool) : String :=
   let negotiatedDuplex := c.mode == .ntn && c.fullDuplex && !c.peerDM
-  if !negotiatedDuplex && !c.server && !resp then "muxer:*"        -- initiator-only: a peer request is an error
+  -- before the application's Start() nothing has been requested, so the property is silent about
+  -- what a premature peer *response* meets; peer *requests* must find their responder
+  if c.delayStart && resp then "*"
+  else if !negotiatedDuplex && !c.server && !resp then "muxer:*"        -- initiator-only: a peer request is an error
   else if !negotiatedDuplex && c.server && resp then "muxer:*"     -- responder-only: a peer response is an error
   else
     let enabled : List Nat := match c.mode with
@@ -39,8 +43,8 @@ def spec (c : Cfg) (id : Nat) (resp : Bool) : String :=
       if id == 8 && resp && !c.sendKeepAlives then "*" else "proto:*"
     else "muxer:*"
 
-def handle (line : String) : Out :=
-  match tokens line with
+def handle1 (toks : List String) (delay : Bool) : Out :=
+  match toks with
   | ["conn", server, mode, fd, ka, _ps, v, pdm, pid, presp] =>
     match parseBool? server, parseMode? mode, parseBool? fd, parseBool? ka, parseNat? v, parseBool? pdm,
           parseNat? pid, parseBool? presp with
@@ -49,10 +53,18 @@ def handle (line : String) : Out :=
       let fl := GV.Lib.VersionTable.flags v
       let c : Cfg := { server, mode, fullDuplex := fd, sendKeepAlives := ka, peerDM := pdm,
                        localQuery := fl.getD 0 false, localTxMonitor := fl.getD 1 false,
-                       keepAlive := fl.getD 2 false, peerSharing := fl.getD 4 false }
+                       keepAlive := fl.getD 2 false, peerSharing := fl.getD 4 false, delayStart := delay }
       let field := if presp then pid + 32768 else pid
       { model := render (route GV.Gen.ConnProtocols.ids c field), spec := spec c pid presp }
     | _, _, _, _, _, _, _, _ => badOp
   | _ => badOp
+
+def handle (line : String) : Out :=
+  let toks := tokens line
+  if toks.length = 11 then
+    match parseBool? (toks.getD 10 "") with
+    | some d => handle1 (toks.take 10) d
+    | none => badOp
+  else handle1 toks false
 
 end GV.Drv.C17
